@@ -6,8 +6,8 @@
    are refuted with witnesses; the theorems exclude exactly those, visibly in their statements. *)
 From Coq Require Import ZArith QArith List Bool Floats.
 From ADV Require Import Base.Fl C01.Model C02.Model C11.Model C03.Model C03.ModelM.
-From ADV Require Import C09.ModelS C09.ModelB C09.ModelV C09.ModelM C09.Spec.
-From ADV Require C09.ProofsS C09.ProofsB C09.ProofsJ C09.ProofsV C09.ProofsRefuted C09.ProofsRefutedB C09.CorrB C09.ProofsM.
+From ADV Require Import C09.ModelS C09.ModelB C09.ModelV C09.ModelM C09.ModelMD C09.ModelVR C09.ModelI C09.Spec.
+From ADV Require C09.ProofsS C09.ProofsB C09.ProofsJ C09.ProofsV C09.ProofsRefuted C09.ProofsRefutedB C09.CorrB C09.ProofsM C09.ProofsMD C09.ProofsVR C09.ProofsI.
 Import ListNotations.
 
 (* ------------------------------------------------------------------ magic scalars *)
@@ -113,11 +113,77 @@ Proof. exact ProofsRefuted.sparse_VDIVS_zero_refuted_float. Qed.
 Theorem dense_matrix_pairs_interchangeable : forall y w p,
   wfdm w -> ProofsM.mpair_proved p -> mstep_concrete y w p = mstep_generic y w p.
 Proof. exact ProofsM.matrix_pairs_agree. Qed.
+(* MdotM/MDOTM, MdotV/MDOTV, VdotM/VDOTM: the concrete twins (nested loops over AT, the row buffer or the column buffer
+   chosen by r.storageLocation() == b.storageLocation() as coded) leave exactly the world and outcome of the generic
+   members (C03.ModelM.step4: closed form computed from the old world; for r = a = b the column schedule mdot_cols that
+   both Go members execute, F-MDOTM-RR) for every well-formed world and EVERY alias pattern: r = a (in-place, row buffer),
+   r = b (in-place, column buffer), a = b, r = a = b; dimension mismatches, empty matrices (storageLocation panics) and
+   the r = b / r = a guard of MdotV / VdotM included. *)
+Theorem dense_matrix_products_interchangeable : forall y w p,
+  wfdm w -> ProofsMD.mpair_product p -> mstep_concrete y w p = mstep_generic y w p.
+Proof. exact ProofsMD.matrix_products_agree. Qed.
+(* every dense matrix pair of the table, no exception left *)
+Theorem dense_matrix_all_pairs_interchangeable : forall y w p, wfdm w -> mstep_concrete y w p = mstep_generic y w p.
+Proof. exact ProofsMD.all_matrix_pairs_agree. Qed.
+(* the generic members written out at LOOP level from the Go text (C09.ModelMD: ConstAt / At / Float64At through the
+   interfaces, same buffers and branches) are the concrete twins step by step on EVERY world (no hypothesis) ... *)
+Theorem generic_product_loops_are_the_concrete_twins : forall y w p out,
+  mstep_generic_loop w p = Some out -> mstep_concrete y w p = out.
+Proof. exact ProofsMD.generic_loop_is_concrete. Qed.
+(* ... and compute C03's closed form under C03's hypothesis *)
+Theorem generic_product_loops_compute_closed_form : forall y w p out,
+  wfdm w -> mstep_generic_loop w p = Some out -> mstep_generic y w p = out.
+Proof. exact ProofsMD.generic_loop_is_closed_form. Qed.
+(* r.MdotM(r, r): both members and the loop-level model leave the same (wrong) product *)
+Theorem MDOTM_rr_both_members_agree :
+  dvals (fst (mstep_concrete TInt ProofsMD.products_world (MPdotM 0 0 0))) 0%nat = [2; 2; 1; 1]%Z /\
+  dvals (fst (mstep_generic TInt ProofsMD.products_world (MPdotM 0 0 0))) 0%nat = [2; 2; 1; 1]%Z /\
+  dvals (fst (MdotM_loop ProofsMD.products_world 0 0 0)) 0%nat = [2; 2; 1; 1]%Z.
+Proof. exact ProofsMD.MDOTM_rr_both_members. Qed.
 (* F-C09-MDOTV-INT: the generic MdotV of an integer vector multiplies in float64 *)
 Theorem MDOTV_int_refuted :
   mdotv_int_generic 1 1 [94906267%Z] [94906267%Z] = [Some 9007199515875288%Z] /\
   mdotv_int_concrete 1 1 [94906267%Z] [94906267%Z] = [9007199515875289%Z].
 Proof. exact ProofsM.MDOTV_int_refuted. Qed.
+
+(* ------------------------------------------------------------------ vectors of magic (Real64 / Real32) elements *)
+(* dense Real vectors are lists of cells of the register file (shared ids = aliasing, overlap, slices of one array):
+   VADDV VSUBV VMULV VDIVV VADDS VSUBS VMULS VDIVS SET run the concrete scalar twins element by element, the generic
+   members the generic scalar methods: same register file (values, Order, N, gradient and Hessian storage of every
+   cell), same element and dimension panics — scalar_pairs_interchangeable composed along the loop, every carrier. *)
+Theorem vector_pairs_interchangeable_real : forall {A} (F : Fl A) (r32 : A -> A) (p : vrpair) (s : C01.Model.St (A := A)),
+  vr_concrete F r32 p s = vr_generic F r32 p s.
+Proof. exact (fun A F r32 p s => ProofsVR.dense_real_vector_pairs_agree F r32 p s). Qed.
+Theorem dense_real_EQUALS_interchangeable : forall {A} (F : Fl A) (a b : list nat) (eps : A) (s : C01.Model.St (A := A)),
+  RVEQUALS F a b eps s = RVEquals F a b eps s.
+Proof. exact (fun A F a b eps s => ProofsVR.dense_real_EQUALS_agrees F a b eps s). Qed.
+(* sparse Real vectors on visit schedules (what the joint iterators deliver: the same for both members by
+   JOINT3_ITERATOR__steps_like_JOINT3_ITERATOR): visits whose operand entries are present run ADD/SUB/MUL/DIV/SET vs
+   Add/../Set: same register file.  Missing: visits with an absent operand entry (next theorem). *)
+Theorem sparse_real_present_visits_interchangeable_partial : forall {A} (F : Fl A) (r32 : A -> A) (k : spair_kind) (sch : list visit),
+  Forall (visit_present k) sch -> forall s : C01.Model.St (A := A), vs_concrete F r32 k sch s = vs_generic F r32 k sch s.
+Proof. exact (fun A F r32 k sch H s => ProofsVR.sparse_real_present_visits_agree F r32 k sch H s). Qed.
+(* F-C09-ABSENT-META: an absent operand entry: SetFloat64(0) keeps Order/N of the receiver cell, Add(0, 0) resets them *)
+Theorem sparse_real_absent_visit_meta_refuted :
+  ~ (forall (k : spair_kind) (sch : list visit) (s : C01.Model.St (A := Z)),
+       vs_concrete ProofsRefuted.FlZ ProofsVR.idZ k sch s = vs_generic ProofsRefuted.FlZ ProofsVR.idZ k sch s).
+Proof. exact ProofsVR.sparse_real_absent_visit_meta_refuted. Qed.
+
+(* ------------------------------------------------------------------ accessors and iterators *)
+(* At/AT, Iterator/ITERATOR, IteratorFrom/ITERATOR_FROM (+ Get/GET per visit, the generic nil guards written out) of
+   dense and sparse vectors and matrices, JointIterator/JOINT_ITERATOR of sparse receivers: both members modelled
+   separately (C09.ModelI); the generic members are wrappers of the concrete ones in the source (checked per run on the
+   source shape), so: same visit sequence, same cell, same world (skip() side effects), same panic — EVERY world. *)
+Theorem accessor_iterator_pairs_interchangeable : forall y w p, istep_concrete y w p = istep_generic y w p.
+Proof. exact ProofsI.accessor_iterator_pairs_agree. Qed.
+(* what the dense vector iterator visits: every position in order; ITERATOR_FROM i the suffix *)
+Theorem dense_vector_ITERATOR_visits : forall y w k, istep_concrete y w (IPiter (KDV k)) =
+  (w, (K_OK, flat_map (ProofsI.dv_rec (getd (b3 w) k)) (zseq 0 (length (getd (b3 w) k))))).
+Proof. exact ProofsI.dv_iterator_visits. Qed.
+Theorem dense_vector_ITERATOR_FROM_is_suffix : forall y w k i j, (0 <= i <= zlen (getd (b3 w) k))%Z ->
+  snd (snd (istep_concrete y w (IPiter (KDV k)))) =
+  flat_map (ProofsI.dv_rec (getd (b3 w) k)) (zseq 0 (Z.to_nat i)) ++ snd (snd (istep_concrete y w (IPfrom (KDV k) i j))).
+Proof. exact ProofsI.dv_iterator_from_is_suffix. Qed.
 
 (* ------------------------------------------------------------------ the hypotheses are satisfiable *)
 Example pairs_covered :
@@ -126,8 +192,9 @@ Example pairs_covered :
   /\ bare TInt8 /\ (forall A (C : Car A), wt C TInt8 (VI (-128))) /\ (forall A (C : Car A) x, wt C TFloat64 (VF x)).
 Proof. cbn. repeat split; try discriminate; reflexivity. Qed.
 Example matrix_world_wellformed :
-  wfdm (run4 TInt init4 [NewDM [1; 2; 3; 4; 5; 6]%Z 2 3; NewDM [0; -1; 2; 7; 0; 3]%Z 2 3]) /\ ProofsM.mpair_proved (MPdivM 0 0 1).
+  wfdm (run4 TInt init4 [NewDM [1; 2; 3; 4; 5; 6]%Z 2 3; NewDM [0; -1; 2; 7; 0; 3]%Z 2 3]) /\ ProofsM.mpair_proved (MPdivM 0 0 1)
+  /\ ProofsMD.mpair_product (MPdotM 0 0 0).
 Proof.
-  split; [|exact I]. intros k. do 3 (destruct k as [|k]; [vm_compute; repeat split; discriminate|]).
+  split; [|split; exact I]. intros k. do 3 (destruct k as [|k]; [vm_compute; repeat split; discriminate|]).
   vm_compute. destruct k; repeat split; discriminate.
 Qed.
